@@ -86,7 +86,22 @@ def handlePyFmt (spec : List Nat) (vals : List Value) : String :=
 def handleDom (spec : List Nat) (vals : List Value) : String :=
   joinSep " " (vals.map fun v => if InDomain spec v then "1" else "0")
 
+/-- `ffacts`: the digit-generation hypotheses `FloatDigitFacts` of `format_float_eq_partial`, per
+    float value (`-` for the other kinds) -/
+def handleFacts (spec : List Nat) (vals : List Value) : String :=
+  joinSep " " (vals.map fun v => match v with
+    | .float b => if FloatDigitFacts spec b then "1" else "0"
+    | _ => "-")
+
 def handle : List String → String
+  | "ffacts" :: spec :: rest =>
+    if rest.isEmpty then "bad-request" else
+    match unhex spec, parseVals rest with
+    | some bs, some vals =>
+      match utf8Decode bs with
+      | some cs => handleFacts cs vals
+      | none => "bad-request"
+    | _, _ => "bad-request"
   | "dom" :: spec :: rest =>
     if rest.isEmpty then "bad-request" else
     match unhex spec, parseVals rest with
